@@ -473,7 +473,7 @@ class Ctx:
             for cls, e in open_classes.items():
                 if cls in self.known_seen:
                     lines.append(f"KNOWN-FINDING: property={self.prop} {e['id']} [{cls}] {e['what']}")
-            for e in listed_inputs:
+            for e in {e["id"]: e for e in listed_inputs}.values():
                 lines.append(f"KNOWN-FINDING: property={self.prop} {e['id']} [listed input] {e['what']}")
         nthm = len(self.theorems)
         good = sum(1 for v in self.theorems.values() if set(v) <= ALLOWED_AXIOMS)
